@@ -16,13 +16,14 @@ type FullGen struct {
 	Avoid   map[string]bool
 	// aliases visible to expressions being generated (definitions are of the
 	// given type); filled by Select while it builds the field list
-	aliases  []*Node // KRef nodes
-	NoAlias  bool
-	NoJSON   bool
-	NoList   bool
-	NoSubstr bool
-	Family   string
-	RefBias  int // extra chance that an operand is an alias reference
+	aliases      []*Node // KRef nodes
+	NoAlias      bool
+	NoJSON       bool
+	NoList       bool
+	NoSubstr     bool
+	Family       string
+	RefBias      int // extra chance that an operand is an alias reference
+	NoUnequalVec bool
 }
 
 func (g *FullGen) pick(xs []string) string { return xs[g.R.Intn(len(xs))] }
@@ -188,7 +189,7 @@ func (g *FullGen) N(d int, asOperand bool) *Node {
 		}
 		k := r.Range(1, 3)
 		a, b := g.numList(k), g.numList(k)
-		if r.Chance(1, 10) {
+		if r.Chance(1, 10) && !g.NoUnequalVec {
 			b = g.numList(k + 1) // unequal lengths: must be an error in both modes
 		}
 		if r.Bool() {
